@@ -1,6 +1,11 @@
 //! ripsim — deterministic simulation with fault injection for numman-ali/rip.
 
 mod checks;
+/// The rip-cli attach / recovery loop, compiled from the repository's own source file (rip-cli is a
+/// binary crate and cannot be linked).
+#[allow(dead_code)]
+#[path = "/repo/crates/rip-cli/src/local_authority.rs"]
+mod cli_local_authority;
 mod driver;
 mod esim;
 mod faults;
@@ -34,6 +39,12 @@ fn main() {
         }));
     }
     let cmd = args.get(1).map(|s| s.as_str()).unwrap_or("");
+    if cmd == "serve" {
+        // the rip-cli attach loop (run by C18's client contenders) spawns `<current exe> serve` as
+        // the local authority; in the simulation server contenders are separate actors, so the
+        // spawned process has nothing to do
+        std::process::exit(0);
+    }
     let code = match cmd {
         "check" => {
             let id = args.get(2).cloned().unwrap_or_default();
